@@ -1,12 +1,20 @@
 import Sigc.Model
 import Sigc.Lemmas.Basic
 import Sigc.Lemmas.Frames
+import Sigc.Lemmas.StepConn
+import Sigc.Spec
 /-!
 # C17 — a scoped_connection disconnects its slot exactly when it gives up ownership
-(first theorems; the complete family is being proved in Sigc/Lemmas/Step*.lean)
+
+Per-operation theorems about `stepSimple` of the mechanism model, valid for **every** state `s` (no
+well-formedness is assumed) and, through `execOp`, for every program and fuel.  `disconnectCell` is
+`slot_rep::disconnect()` on the rep of a list cell; by `disconnectCell_eq` (Lemmas/StepConn.lean) it is
+the pure table transformation `discI` plus nulling of every connection to the cell iff it was erased.
+Domain: self-move-assignment `masgK i i` is outside C17's histories (DESIGN §2); the model answers
+"self" and changes nothing (`masgK_self`).
 -/
 namespace Sigc.C17
-open Sigc.Model
+open Sigc.Model Sigc.StepConn
 
 /-- move construction transfers the responsibility without disconnecting: no list changes, the new
     object holds what the source held, the source is empty -/
@@ -66,5 +74,277 @@ theorem discK_disconnects_held (s s' : St) (r : String) (k : Nat) (p : Option Na
 
 example : ∃ s', stepSimple { K := [(0, some 7)] } (.mvK 1 0) = some (s', "ok") ∧ s'.K = [(0, none), (1, some 7)] := by
   exact ⟨_, rfl, by simp [aset]⟩
+
+example : ∃ s', stepSimple { K := [(0, some 7), (1, none)] } (.swapK 0 1) = some (s', "ok") ∧ s'.K = [(0, none), (1, some 7)] := by
+  exact ⟨_, rfl, by simp [aset]⟩
+
+example : ∃ s', stepSimple { K := [(0, some 7)], C := [(3, none)] } (.relK 3 0) = some (s', "ok")
+    ∧ s'.K = [(0, none)] ∧ s'.C = [(3, some 7)] := by
+  exact ⟨_, rfl, by simp [aset, setConn], by simp [aset, setConn]⟩
+
+example : (stepSimple exStK (.delK 0)).map (fun x => (x.1.impls.map (fun p => p.2.cells.map (·.id)), x.1.C, x.1.K))
+    = some ([[6]], [(0, none), (1, some 6)], [(1, some 6)]) := by decide
+
+example : (stepSimple exStK (.discK 0)).map (fun x => (x.1.impls.map (fun p => p.2.cells.map (·.id)), x.1.C, x.1.K))
+    = some ([[6]], [(0, none), (1, some 6)], [(0, none), (1, some 6)]) := by decide
+
+/-- assigning a connection (`operator=(connection)`) disconnects exactly the slot held before and then
+    holds the assigned connection (which is empty if it referred to the slot just erased) -/
+theorem asgKC_disconnects_old (s s' : St) (r : String) (i c : Nat) (old p : Option Nat)
+    (hk : aget s.K i = some old) (hc : aget s.C c = some p) (h : stepSimple s (.asgKC i c) = some (s', r)) :
+    r = "ok" ∧ ∃ p', s' = { discOpt s old with K := aset (discOpt s old).K i p' } ∧
+      aget (discOpt s old).C c = some p' ∧ (p' = p ∨ (p' = none ∧ p = old ∧ old ≠ none)) := by
+  obtain ⟨p', hp', hor⟩ := discOpt_C_entry s old c p hc
+  cases old with
+  | none =>
+    simp only [discOpt] at hp' ⊢
+    have e : p' = p := by rw [hc] at hp'; exact (Option.some.inj hp').symm
+    subst e
+    simp only [stepSimple, hk, hc, Option.some.injEq, Prod.mk.injEq] at h
+    obtain ⟨rfl, rfl⟩ := h
+    exact ⟨rfl, p', rfl, hp', hor⟩
+  | some cid =>
+    simp only [discOpt] at hp' ⊢
+    simp only [stepSimple, hk, hc] at h
+    simp only [hp', Option.some.injEq, Prod.mk.injEq] at h
+    obtain ⟨rfl, rfl⟩ := h
+    exact ⟨rfl, p', rfl, hp', hor⟩
+
+example : (stepSimple exStK (.asgKC 0 1)).map (fun x => (x.1.impls.map (fun p => p.2.cells.map (·.id)), x.1.C, x.1.K))
+    = some ([[6]], [(0, none), (1, some 6)], [(0, some 6), (1, some 6)]) := by decide
+
+/-- move assignment from another scoped_connection disconnects exactly the slot the destination held,
+    transfers the source's slot without disconnecting it, and leaves the source empty -/
+theorem masgK_disconnects_old_transfers (s s' : St) (r : String) (j i : Nat) (old p : Option Nat)
+    (hj : aget s.K j = some old) (hi : aget s.K i = some p) (hji : j ≠ i)
+    (h : stepSimple s (.masgK j i) = some (s', r)) :
+    r = "ok" ∧ ∃ p', s' = { discOpt s old with K := aset (aset (discOpt s old).K i none) j p' } ∧
+      aget s'.K j = some p' ∧ aget s'.K i = some none ∧
+      (p' = p ∨ (p' = none ∧ p = old ∧ old ≠ none)) ∧
+      s'.impls = (discOpt s old).impls := by
+  obtain ⟨p', hp', hor⟩ := discOpt_K_entry s old i p hi
+  cases old with
+  | none =>
+    simp only [discOpt] at hp' ⊢
+    have e : p' = p := by rw [hi] at hp'; exact (Option.some.inj hp').symm
+    subst e
+    simp only [stepSimple, hj, hi, hji, if_false, Option.some.injEq, Prod.mk.injEq] at h
+    obtain ⟨rfl, rfl⟩ := h
+    refine ⟨rfl, p', rfl, by simp, ?_, hor, rfl⟩
+    simp [aget_aset_other _ _ _ _ (Ne.symm hji)]
+  | some cid =>
+    simp only [discOpt] at hp' ⊢
+    simp only [stepSimple, hj, hi, hji, if_false] at h
+    simp only [hp', Option.some.injEq, Prod.mk.injEq] at h
+    obtain ⟨rfl, rfl⟩ := h
+    refine ⟨rfl, p', rfl, by simp, ?_, hor, rfl⟩
+    simp [aget_aset_other _ _ _ _ (Ne.symm hji)]
+
+example : (stepSimple exStK (.masgK 0 1)).map (fun x => (x.1.impls.map (fun p => p.2.cells.map (·.id)), x.1.C, x.1.K))
+    = some ([[6]], [(0, none), (1, some 6)], [(0, some 6), (1, none)]) := by decide
+
+/-- self-move-assignment is outside C17's histories; the model leaves the state unchanged -/
+theorem masgK_self (s : St) (i : Nat) (p : Option Nat) (hi : aget s.K i = some p) :
+    stepSimple s (.masgK i i) = some (s, "self") := by
+  simp [stepSimple, hi]
+
+example : stepSimple exStK (.masgK 0 0) = some (exStK, "self") := masgK_self _ _ _ rfl
+
+/-- **disconnects-iff, per step**: a scoped-connection operation changes the slot lists exactly by the
+    `disconnect()` (`discI`) of the cell named by `kDisconnects` — the cell held by the object that is
+    destroyed / assigned a connection / moved into / explicitly disconnected — and not at all when
+    `kDisconnects` names none (move construction, swap, release, construction, queries, operations on
+    dead names, an object holding nothing) -/
+theorem disconnects_iff_step (s s' : St) (r : String) (op : Op) (hop : isKOp op = true)
+    (h : stepSimple s op = some (s', r)) :
+    s'.impls = match kDisconnects s op with
+               | some cid => (discI s.impls cid).1
+               | none => s.impls :=
+  kop_impls s s' r op hop h
+
+example : kDisconnects exStK (.delK 0) = some 5 ∧ kDisconnects exStK (.mvK 2 0) = none
+    ∧ kDisconnects exStK (.swapK 0 1) = none ∧ kDisconnects exStK (.relK 0 0) = none
+    ∧ kDisconnects exStK (.masgK 1 0) = some 6 ∧ kDisconnects exStK (.asgKC 1 0) = some 6 := by decide
+
+/-- the same for every operation executed by any program at any fuel (every step of every history goes
+    through `execOp`) -/
+theorem disconnects_iff (f : Nat) (P : Prog) (s s' : St) (res : Except Unit String) (op : Op) (hop : isKOp op = true)
+    (h : execOp (f+1) P s op = some (s', res)) :
+    s'.impls = match kDisconnects s op with
+               | some cid => (discI s.impls cid).1
+               | none => s.impls := by
+  obtain ⟨r, hr, _⟩ := execOp_kop f P s s' res op hop h
+  exact kop_impls s s' r op hop hr
+
+/-- the transferring operations (move construction, swap, release) and construction never disconnect -/
+theorem transfer_no_disconnect (s s' : St) (r : String) (op : Op)
+    (hop : (match op with | .mvK _ _ | .swapK _ _ | .relK _ _ | .newK _ _ | .newK0 _ => true | _ => false) = true)
+    (h : stepSimple s op = some (s', r)) : s'.impls = s.impls := by
+  cases op <;> simp at hop <;> exact kop_impls s s' r _ rfl h
+
+example : (stepSimple exStK (.mvK 2 0)).map (fun x => (x.1.impls.map (fun p => p.2.cells.map (·.id)), x.1.K))
+    = some ([[5, 6]], [(0, none), (1, some 6), (2, some 5)]) := by
+  decide
+
+/-- the plain connection copies are untouched by every scoped-connection operation except `release()`
+    (which by definition stores the released connection into its target) — unless the disconnected
+    cell was erased, in which case exactly the connections to that cell are nulled -/
+theorem plain_untouched (s s' : St) (r : String) (op : Op) (hop : isKOp op = true)
+    (hrel : ∀ c k, op ≠ .relK c k) (h : stepSimple s op = some (s', r)) :
+    s'.C = s.C ∨ ∃ cid, kDisconnects s op = some cid ∧ (discI s.impls cid).2 = true ∧ s'.C = amap s.C (nullF cid) := by
+  cases op <;> simp only [isKOp] at hop <;> try (exact absurd hop (by decide))
+  case newK0 i =>
+    simp only [stepSimple] at h
+    split at h <;> simp at h <;> obtain ⟨rfl, _⟩ := h <;> exact Or.inl rfl
+  case newK i c =>
+    simp only [stepSimple] at h
+    split at h
+    · simp at h; obtain ⟨rfl, _⟩ := h; exact Or.inl rfl
+    · split at h <;> simp at h <;> obtain ⟨rfl, _⟩ := h <;> exact Or.inl rfl
+  case asgKC i c =>
+    cases hk : aget s.K i with
+    | none => simp [stepSimple, hk] at h; obtain ⟨rfl, _⟩ := h; exact Or.inl rfl
+    | some old =>
+      cases hc : aget s.C c with
+      | none => simp [stepSimple, hk, hc] at h; obtain ⟨rfl, _⟩ := h; exact Or.inl rfl
+      | some p =>
+        obtain ⟨_, p', rfl, _, _⟩ := asgKC_disconnects_old s s' r i c old p hk hc h
+        simp only [kDisconnects, hk, hc]
+        exact discOpt_C s old
+  case mvK j i =>
+    simp only [stepSimple] at h
+    split at h
+    · simp at h; obtain ⟨rfl, _⟩ := h; exact Or.inl rfl
+    · split at h <;> simp at h <;> obtain ⟨rfl, _⟩ := h <;> exact Or.inl rfl
+  case masgK j i =>
+    cases hj : aget s.K j with
+    | none => simp [stepSimple, hj] at h; obtain ⟨rfl, _⟩ := h; exact Or.inl rfl
+    | some old =>
+      cases hi : aget s.K i with
+      | none => simp [stepSimple, hj, hi] at h; obtain ⟨rfl, _⟩ := h; exact Or.inl rfl
+      | some p =>
+        by_cases hji : j = i
+        · simp [stepSimple, hi, hji] at h; obtain ⟨rfl, _⟩ := h; exact Or.inl rfl
+        · obtain ⟨_, p', rfl, _⟩ := masgK_disconnects_old_transfers s s' r j i old p hj hi hji h
+          simp only [kDisconnects, hj, hi, hji, if_false]
+          exact discOpt_C s old
+  case swapK i j =>
+    simp only [stepSimple] at h
+    split at h <;> simp at h <;> obtain ⟨rfl, _⟩ := h <;> exact Or.inl rfl
+  case relK c k => exact absurd rfl (hrel c k)
+  case discK i =>
+    cases hk : aget s.K i with
+    | none => simp [stepSimple, hk] at h; obtain ⟨rfl, _⟩ := h; exact Or.inl rfl
+    | some p =>
+      obtain ⟨_, rfl⟩ := discK_disconnects_held s s' r i p hk h
+      simp only [kDisconnects, hk]
+      have := discOpt_C s p
+      cases p with
+      | none => exact Or.inl rfl
+      | some cid => simpa [discOpt] using this
+  case delK i =>
+    cases hk : aget s.K i with
+    | none => simp [stepSimple, hk] at h; obtain ⟨rfl, _⟩ := h; exact Or.inl rfl
+    | some p =>
+      obtain ⟨_, rfl⟩ := delK_disconnects_held s s' r i p hk h
+      simp only [kDisconnects, hk]
+      have := discOpt_C { s with K := adel s.K i } p
+      cases p with
+      | none => exact Or.inl rfl
+      | some cid => simpa [discOpt] using this
+  case connectedKq i =>
+    simp only [stepSimple] at h
+    split at h <;> simp at h <;> obtain ⟨rfl, _⟩ := h <;> exact Or.inl rfl
+  case blockedKq i =>
+    simp only [stepSimple] at h
+    split at h <;> simp at h <;> obtain ⟨rfl, _⟩ := h <;> exact Or.inl rfl
+
+/-- `release()` writes only the connection variable it returns into -/
+theorem relK_plain_frame (s s' : St) (r : String) (c k : Nat) (h : stepSimple s (.relK c k) = some (s', r)) :
+    ∀ c', c' ≠ c → aget s'.C c' = aget s.C c' := by
+  intro c' hc'
+  simp only [stepSimple] at h
+  split at h
+  · simp at h; obtain ⟨rfl, _⟩ := h; rfl
+  · simp [setConn] at h; obtain ⟨rfl, _⟩ := h
+    exact aget_aset_other _ _ _ _ hc'
+
+/-- the plain connection the scoped_connection was created from stays a valid handle that tells the
+    truth: after the scoped_connection has disconnected its slot (destruction / explicit disconnect),
+    every plain connection to that slot exists and reports "not connected" -/
+theorem plain_stays_valid (s s' : St) (r : String) (k cid c : Nat) (op : Op) (hop : op = .delK k ∨ op = .discK k)
+    (hk : aget s.K k = some (some cid)) (hc : aget s.C c = some (some cid))
+    (h : stepSimple s op = some (s', r)) :
+    ∃ p', aget s'.C c = some p' ∧ connConnected s' p' = false ∧ stepSimple s' (.connectedq c) = some (s', "0") := by
+  have key : ∀ s0 : St, aget s0.C c = some (some cid) →
+      ∃ p', aget (disconnectCell s0 cid).C c = some p' ∧ connConnected (disconnectCell s0 cid) p' = false ∧
+        stepSimple (disconnectCell s0 cid) (.connectedq c) = some (disconnectCell s0 cid, "0") := by
+    intro s0 h0
+    obtain ⟨p', h1, h2⟩ := conn_after_disconnect s0 cid c h0
+    exact ⟨p', h1, h2, by simp [stepSimple, h1, h2, bstr]⟩
+  rcases hop with rfl | rfl
+  · obtain ⟨_, rfl⟩ := delK_disconnects_held s s' r k _ hk h
+    exact key { s with K := adel s.K k } hc
+  · obtain ⟨_, rfl⟩ := discK_disconnects_held s s' r k _ hk h
+    exact key s hc
+
+example : ((stepSimple exStK (.delK 0)).bind (fun x => stepSimple x.1 (.connectedq 0))).map (·.2) = some "0"
+    ∧ ((stepSimple exStK (.delK 0)).bind (fun x => stepSimple x.1 (.connectedq 1))).map (·.2) = some "1" := by
+  decide
+
+/-- `kDisconnects` is the held cell: nothing is disconnected by an object that holds nothing -/
+theorem empty_scoped_disconnects_nothing (s s' : St) (r : String) (k : Nat) (op : Op) (hop : op = .delK k ∨ op = .discK k)
+    (hk : aget s.K k = some none) (h : stepSimple s op = some (s', r)) :
+    s'.impls = s.impls ∧ s'.C = s.C := by
+  rcases hop with rfl | rfl
+  · obtain ⟨_, rfl⟩ := delK_disconnects_held s s' r k _ hk h
+    exact ⟨rfl, rfl⟩
+  · obtain ⟨_, rfl⟩ := discK_disconnects_held s s' r k _ hk h
+    exact ⟨rfl, rfl⟩
+
+/-- a moved-from / released scoped_connection no longer disconnects: destroying it afterwards leaves the
+    lists alone (the sequence the single test script does not contain) -/
+theorem moved_from_does_not_disconnect (s s1 s2 : St) (r1 r2 : String) (j i : Nat) (p : Option Nat)
+    (hi : aget s.K i = some p) (hj : aget s.K j = none) (hji : j ≠ i)
+    (h1 : stepSimple s (.mvK j i) = some (s1, r1)) (h2 : stepSimple s1 (.delK i) = some (s2, r2)) :
+    s2.impls = s.impls ∧ s2.C = s.C ∧ aget s2.K j = some p := by
+  obtain ⟨_, himp, hC, _, hKj, hKi⟩ := mvK_transfers s s1 r1 j i p hi hj hji h1
+  obtain ⟨_, rfl⟩ := delK_disconnects_held s1 s2 r2 i none hKi h2
+  refine ⟨himp, hC, ?_⟩
+  simp only
+  rw [aget_adel_other _ _ _ hji]
+  exact hKj
+
+example : ∃ s1 s2, stepSimple exStK (.mvK 2 0) = some (s1, "ok") ∧ stepSimple s1 (.delK 0) = some (s2, "ok")
+    ∧ s2.impls = exStK.impls ∧ aget s2.K 2 = some (some 5) := by
+  refine ⟨_, _, rfl, rfl, rfl, ?_⟩; decide
+
+/-! ### the specification `S` (statement level: a disconnected slot leaves its list immediately) -/
+
+/-- in `S`, destruction and explicit disconnect remove exactly the held slot from its list -/
+theorem spec_delK_removes_held (s : Spec.LSt) (k : Nat) (p : Option Nat) (hk : aget s.K k = some p) :
+    Spec.stepSimple s (.delK k) = some ((match p with
+        | some cid => Spec.removeCell { s with K := adel s.K k } cid
+        | none => { s with K := adel s.K k }), "ok") ∧
+    Spec.stepSimple s (.discK k) = some ((match p with
+        | some cid => Spec.removeCell s cid
+        | none => s), "ok") := by
+  cases p <;> simp [Spec.stepSimple, hk]
+
+/-- in `S`, move construction, swap, release and construction leave every list untouched -/
+theorem spec_transfer_no_disconnect (s s' : Spec.LSt) (r : String) (op : Op)
+    (hop : (match op with | .mvK _ _ | .swapK _ _ | .relK _ _ | .newK _ _ | .newK0 _ => true | _ => false) = true)
+    (h : Spec.stepSimple s op = some (s', r)) : s'.sigs = s.sigs := by
+  cases op <;> simp at hop
+  all_goals
+    simp only [Spec.stepSimple] at h
+    repeat' split at h
+    all_goals
+      simp only [Option.some.injEq, Prod.mk.injEq] at h
+      obtain ⟨rfl, _⟩ := h
+      rfl
+
+example : (Spec.stepSimple { K := [(0, some 7)], sigs := [(1, { cells := [{ id := 7, slot := {} }] })] } (.mvK 1 0)).map
+    (fun x => (x.1.K, x.1.sigs.map (fun p => p.2.cells.map (·.id)))) = some ([(0, none), (1, some 7)], [[7]]) := by decide
 
 end Sigc.C17
